@@ -10,16 +10,22 @@ from .qnum import Q
 
 
 def storage_proxy(cls, clock, count_get=False):
-    """Subclass of a real storage that records update (and optionally get_data) at the boundary."""
+    """Subclass of a real storage that records update (and optionally get_data) at the boundary.
+    The clock is an instance attribute (not a closure) so that deep copies tick their own copy."""
     class Proxy(cls):
+        def __init__(self, *a, **k):
+            super().__init__(*a, **k)
+            self._vf_clock = clock
+            self._vf_count_get = count_get
+
         def update(self, x, y=None):
-            clock.tick("storage.update")
-            clock.log.append(("storage.update", x, y))
+            self._vf_clock.tick("storage.update")
+            self._vf_clock.log.append(("storage.update", x, y))
             return super().update(x, y)
 
         def get_data(self):
-            if count_get:
-                clock.tick("storage.get_data")
+            if self._vf_count_get:
+                self._vf_clock.tick("storage.get_data")
             return super().get_data()
     Proxy.__name__ = cls.__name__ + "Proxy"
     Proxy.__qualname__ = Proxy.__name__
